@@ -240,7 +240,7 @@ Section Product.
   Qed.
 
   (* ---------- untrusted exploration (computes R, the deviating cells and a shortest input path to each) ---------- *)
-  Fixpoint explore (fuel : nat) (todo : list (S * T * str)) (seen : list (S * T))
+  Fixpoint explore (excl : S -> T -> option N -> bool) (fuel : nat) (todo : list (S * T * str)) (seen : list (S * T))
            (devs : list (S * T * option N * str)) : list (S * T) * list (S * T * option N * str) :=
     match fuel with
     | O => (seen, devs)
@@ -248,16 +248,17 @@ Section Product.
         match todo with
         | [] => (seen, devs)
         | (s, t, path) :: todo' =>
-            if pair_mem (s, t) seen then explore fuel' todo' seen devs
+            if pair_mem (s, t) seen then explore excl fuel' todo' seen devs
             else
               let cells := map (fun c => (c, stepS s (Some c), stepT t (Some c))) sigma in
               let succ := flat_map (fun x => let '(c, (s', o1), (t', o2)) := x in
-                                             if effs_eqb (canon o1) (canon o2) && negb (stops o1)
+                                             if negb (excl s t (Some c)) && effs_eqb (canon o1) (canon o2) && negb (stops o1)
                                              then [(s', t', path ++ [c])] else []) cells in
               let dv := flat_map (fun x => let '(c, (s', o1), (t', o2)) := x in
-                                           if effs_eqb (canon o1) (canon o2) then [] else [(s, t, Some c, path ++ [c])]) cells in
-              let dvend := if agree_at s t None then [] else [(s, t, None, path)] in
-              explore fuel' (todo' ++ succ) ((s, t) :: seen) (devs ++ dv ++ dvend)
+                                           if negb (excl s t (Some c)) && effs_eqb (canon o1) (canon o2) then []
+                                           else [(s, t, Some c, path ++ [c])]) cells in
+              let dvend := if negb (excl s t None) && agree_at s t None then [] else [(s, t, None, path)] in
+              explore excl fuel' (todo' ++ succ) ((s, t) :: seen) (devs ++ dv ++ dvend)
         end
     end.
 End Product.
